@@ -418,6 +418,11 @@ def plan_C04(ctx):
     for mod, cfg in (("MC_URIAdj", "MC_URIAdj_core.cfg"), ("MC_URI", "MC_URI_schemes.cfg"), ("MC_IP4", "MC_IP4_b4.cfg"), ("MC_URICmp", "MC_URICmp_recase.cfg"),
                      ("MC_GenSig", "MC_GenSig_probe.cfg"), ("MC_GenSig", "MC_GenSig_caps8.cfg")) + (() if ctx.quick else (("MC_URIAdj", "MC_URIAdj.cfg"), ("MC_URICmp", "MC_URICmp_flags64v.cfg"), ("MC_IP4Gen", "MC_IP4Gen.cfg"))):
         ctx.tlc(mod, cfg, workers=8, timeout=3000)
+    # ... the string signatures (getStrCharsSig / GetCallIDSig / IP4Prefix / IP6Prefix behind them): structured Call-IDs (addresses, IPv6-shaped
+    # texts with too many groups, very long ids) and every string over the base64 alphabets ('=' padding at every position, also last)
+    ctx.tlc("MC_StrSig", strsig_cfg("gen"), min_records=1000)
+    for al in ("b64", "b64b") + (() if ctx.quick else ("v6", "ip", "seps")):
+        ctx.tlc("MC_StrSig", strsig_cfg("cid", al, 2 if ctx.quick else 0), min_records=1000, timeout=3000)
     # isolation at call-interleaving granularity: TLC enumerates every interleaving of the chunked calls of two objects (MC_Stream2,
     # invariant Isolated on the model); each is executed on two real objects and compared with their solo runs
     ctx.tlc("MC_Stream2", "MC_Stream2.cfg", workers=8, min_records=100)
